@@ -38,8 +38,11 @@ theorem frame_of_waiting {st : Status} (h : st = .waiting) : st.frame = none := 
 theorem inv_step {stream0 : List Frame} {s s' : State} {e : Event}
     (hi : Inv stream0 s) (h : step s e = some s') : Inv stream0 s' := by
   cases e with
-  | write tag ok =>
+  | write tag ok id =>
     simp only [step] at h
+    split at h
+    · cases h
+    rename_i hidw
     have hfresh : s.calls (s.nextSeq + 1) = none := by
       cases hc : s.calls (s.nextSeq + 1) with
       | none => rfl
@@ -330,6 +333,25 @@ theorem calls_are_numbered (stream0 : List Frame) (es : List Event) (s : State)
     (h : run stream0 es = some s) (i : Nat) (c : Call) (hc : s.calls i = some c) : 1 ≤ i ∧ i ≤ s.nextSeq :=
   (inv_run stream0 es (init stream0) s (inv_init stream0) h).range i c hc
 
+/-- the id a `doRequest` puts on the wire is fresh: it differs from the wire id of every earlier call fewer
+than 2^32 requests back — in particular of every call still in flight.  (Trace form of
+ids_unique_inflight: a recorded `C.Write` that reuses an in-flight id is not a behaviour of the model.) -/
+theorem write_id_fresh (stream0 : List Frame) (es : List Event) (s s' : State)
+    (h : run stream0 es = some s) (tag : Nat) (ok : Bool) (id : Nat)
+    (hs : step s (.write tag ok id) = some s') (i : Nat) (c : Call) (hc : s.calls i = some c)
+    (hnear : s.nextSeq + 1 < i + 4294967296) : wire i ≠ id := by
+  have hr := calls_are_numbered stream0 es s h i c hc
+  simp only [step] at hs
+  split at hs
+  · cases hs
+  · rename_i hid
+    have hid' : id = wire (s.nextSeq + 1) := by
+      cases hd : decide (id = wire (s.nextSeq + 1)) with
+      | true => exact of_decide_eq_true hd
+      | false => exact absurd (of_decide_eq_false hd) hid
+    rw [hid']
+    exact ids_unique_inflight i (s.nextSeq + 1) (by omega) ⟨by omega, hnear⟩
+
 /-- the wrap is real: request 2^32+1 reuses the wire id of request 1 (so the bound is needed) -/
 theorem ids_wrap_counterexample : wire 1 = wire 4294967297 := by decide
 
@@ -369,11 +391,11 @@ theorem timeout_closes (s s' : State) (seq : Nat) (h : step s (.peekErr seq) = s
   · cases h
 
 /-- non-vacuity: two callers, responses in the opposite order, one foreign frame; both get their own -/
-example : (run [⟨2, 20⟩, ⟨1, 10⟩] [.write 10 true, .write 20 true, .yield 1 2, .take 2, .finish 2 .ok, .take 1, .finish 1 .ok]).map
+example : (run [⟨2, 20⟩, ⟨1, 10⟩] [.write 10 true 1, .write 20 true 2, .yield 1 2, .take 2, .finish 2 .ok, .take 1, .finish 1 .ok]).map
     (fun s => (s.calls 1, s.calls 2)) =
     some (some ⟨10, .done (.resp 1 ⟨1, 10⟩)⟩, some ⟨20, .done (.resp 0 ⟨2, 20⟩)⟩) := by decide
 
-example : (run [⟨7, 70⟩] [.write 10 true, .lone 1 7]).map (fun s => (s.calls 1, s.closed, s.stream)) =
+example : (run [⟨7, 70⟩] [.write 10 true 1, .lone 1 7]).map (fun s => (s.calls 1, s.closed, s.stream)) =
     some (some ⟨10, .done .err⟩, false, [⟨7, 70⟩]) := by decide
 
 /-! ## Part 2 — pooled connections of a Transport -/
